@@ -315,8 +315,9 @@ Lemma fetch_ok_err loc x rd size s e :
 Proof.
   unfold fetch_entry. fold (fresh s (loc_hash loc)).
   destruct (hcr_read_full H (fresh s (loc_hash loc)) size) as [[d e1] r'] eqn:Er.
-  destruct (read_full_err i _ _ _ _ _ _ Er) as [X|[X|[X|(X & _)]]]; subst e1.
-  - destruct (close_err i r') as [X|[X|X]]; fold H in X; rewrite X; [discriminate|intros [= <-]|intros [= <-]]; repeat split; discriminate.
+  destruct (read_full_err i _ _ _ _ _ _ Er) as [X|[X|[X|[X|(X & _)]]]]; subst e1.
+  - destruct (close_err i r') as [X|[X|[X|X]]]; fold H in X; rewrite X; [discriminate|intros [= <-]|intros [= <-]|intros [= <-]]; repeat split; discriminate.
+  - intros [= <-]. repeat split; discriminate.
   - intros [= <-]. repeat split; discriminate.
   - intros [= <-]. repeat split; discriminate.
   - intros [= <-]. repeat split; discriminate.
